@@ -283,6 +283,10 @@ type Suite struct {
 	Budget    func(tier string) time.Duration
 	Rule      string
 	Assume    []string
+	// Stage2: merge this run's evidence into the file written by the first-stage binary
+	Stage2 bool
+	// Level overrides the evidence level (default "exploration")
+	Level string
 }
 
 // Main implements the whole protocol of an E2 harness binary: master (spawns workers,
@@ -313,7 +317,12 @@ func Main(su Suite, replayPath string) int {
 		_ = os.WriteFile(os.Getenv("VERIF_WORKER_OUT"), b, 0o644)
 		return 0
 	}
-	run := ev.NewRun(su.Property, "exploration")
+	lvl := "exploration"
+	if su.Level != "" {
+		lvl = su.Level
+	}
+	run := ev.NewRun(su.Property, lvl)
+	run.MergeExisting = su.Stage2
 	nw := runtime.NumCPU()
 	if v := os.Getenv("VERIF_WORKERS"); v != "" {
 		nw, _ = strconv.Atoi(v)
